@@ -789,6 +789,80 @@ def extra_checks(tier, rng, findings):
     cov['history_operation_counts'] = dict(sorted(HIST_OPS.items()))
     cov['compile_probes'] = {'count': len(res), 'pairs_illformed': sorted(ill), 'outcomes': table,
                              'summary': {o: sum(1 for v in res.values() if v[0] == o) for o in ('compile-error', 'panic', 'none', 'value', 'timeout')}}
+    # code that only exists under another feature selection: the rand 0.8 inherent API (`#[cfg(not(feature = "rand-09"))]` in
+    # src/support/rand.rs) is compiled out of the main harness, which enables every feature at once
+    alt, alt_err = alt_rand08(repo)
+    if alt is None:
+        cov['alt_config_rand08'] = {'status': 'unavailable', 'why': alt_err[-600:]}
+    else:
+        cov['alt_config_rand08'] = {'status': 'ran', 'lines': len(alt), 'noncanonical': [l for l in alt if l.startswith('NONCANON')]}
+        for l in alt:
+            if l.startswith('NONCANON'):
+                viol.append(('impl-violation', 'probe-alt rand08 ' + l.split(' ', 1)[1] + ' :: ' + ALT_RAND08_MAIN.replace('\n', ' ')[:1500],
+                             l, 'canonical value', 'canonical value'))
     # a failing control means that probe item no longer compiles on a well-formed type (API renamed/removed): its results on
     # ill-formed types say nothing; reported as unavailable, not as an alarm (a compile error is never a violation anyway)
     return {'violations': viol, 'known': known, 'coverage': cov}
+
+
+ALT_RAND08_MAIN = '''use ruint::Uint;
+struct Ones;
+impl rand::RngCore for Ones {
+    fn next_u32(&mut self) -> u32 { u32::MAX }
+    fn next_u64(&mut self) -> u64 { u64::MAX }
+    fn fill_bytes(&mut self, d: &mut [u8]) { for b in d { *b = 0xff; } }
+    fn try_fill_bytes(&mut self, d: &mut [u8]) -> Result<(), rand::Error> { self.fill_bytes(d); Ok(()) }
+}
+fn canon<const B: usize, const L: usize>(v: &Uint<B, L>) -> bool {
+    L == 0 || B % 64 == 0 || v.as_limbs()[L - 1] < (1u64 << (B % 64))
+}
+fn run<const B: usize, const L: usize>() {
+    use rand::distributions::Distribution;
+    use rand::Rng;
+    let mut a = Uint::<B, L>::ZERO;
+    a.randomize_with(&mut Ones);
+    let b = Uint::<B, L>::random_with(&mut Ones);
+    let c: Uint<B, L> = rand::distributions::Standard.sample(&mut Ones);
+    let d: Uint<B, L> = Ones.gen();
+    let mut e = Uint::<B, L>::MAX;
+    e.randomize_with(&mut Ones);
+    for (n, v) in [("randomize_with", a), ("random_with", b), ("Standard.sample", c), ("gen", d), ("randomize_with_from_MAX", e)] {
+        println!("{} {} {} {:?}", if canon(&v) { "OK" } else { "NONCANON" }, B, n, v.as_limbs());
+    }
+}
+fn main() {
+    run::<0, 0>(); run::<1, 1>(); run::<7, 1>(); run::<63, 1>(); run::<64, 1>(); run::<65, 2>(); run::<100, 2>();
+    run::<127, 2>(); run::<128, 2>(); run::<129, 3>(); run::<200, 4>(); run::<256, 4>(); run::<521, 9>();
+}
+'''
+
+
+def alt_rand08(repo):
+    """build and run a probe against ruint with ONLY the `rand` (0.8) feature: -> (output lines, '') or (None, why)"""
+    import hashlib
+    import shutil
+    import subprocess
+    root = os.environ.get('VERIF_ROOT', os.path.dirname(os.path.dirname(os.path.dirname(os.path.abspath(__file__)))))
+    key = hashlib.blake2b(repo.encode(), digest_size=5).hexdigest()
+    d = '/tmp/g4_alt_r08_' + key
+    tgt = os.path.join(root, 'harness', 'target', 'probes_alt_r08_' + key)
+    try:
+        shutil.rmtree(d, ignore_errors=True)
+        os.makedirs(os.path.join(d, 'src'))
+        os.makedirs(os.path.join(d, '.cargo'))
+        open(os.path.join(d, '.cargo', 'config.toml'), 'w').write('[net]\noffline = true\n')
+        shutil.copy(os.path.join(root, 'harness', 'Cargo.lock'), os.path.join(d, 'Cargo.lock'))
+        open(os.path.join(d, 'Cargo.toml'), 'w').write(
+            '[package]\nname = "g4altr08"\nversion = "0.0.0"\nedition = "2021"\npublish = false\n\n[workspace]\n\n[dependencies]\n'
+            'ruint = { path = "%s", default-features = false, features = ["std", "rand"] }\nrand = "0.8"\n\n'
+            '[profile.dev]\nopt-level = 0\ndebug = false\nincremental = false\n' % repo)
+        open(os.path.join(d, 'src', 'main.rs'), 'w').write(ALT_RAND08_MAIN)
+        env = dict(os.environ, CARGO_NET_OFFLINE='true', CARGO_TARGET_DIR=tgt)
+        p = subprocess.run(['cargo', 'run', '--offline', '-q'], cwd=d, env=env, capture_output=True, text=True, timeout=1800)
+        if p.returncode != 0:
+            return None, (p.stderr or p.stdout)[-1500:]
+        return [l for l in p.stdout.split('\n') if l.strip()], ''
+    except Exception as e:   # the alternative configuration is a bonus: never an alarm when it cannot be built
+        return None, repr(e)
+    finally:
+        shutil.rmtree(d, ignore_errors=True)
